@@ -107,5 +107,8 @@ pub fn print_facts(out: &mut impl Write) {
         let n = with_v!(be, V => <V as SealingVersion<Public>>::nonce().expect("nonce").len());
         writeln!(w, "  | .{} => {}", be.name(), n).unwrap();
     }
+    // jiff's representable timestamp range in nanoseconds
+    writeln!(w, "def tsMin : Int := {}", paseto_json::jiff::Timestamp::MIN.as_nanosecond()).unwrap();
+    writeln!(w, "def tsMax : Int := {}", paseto_json::jiff::Timestamp::MAX.as_nanosecond()).unwrap();
     writeln!(w, "end PM.Extracted").unwrap();
 }
